@@ -52,6 +52,7 @@ fn main() {
         "miri-run" => lifecycle::miri_run(rest),
         "strainsvec-replay" => strainsvec::main(rest),
         "utils-replay" => utilsrep::main(rest),
+        "ctrlpoints-replay" => utilsrep::ctrlpoints_main(rest),
         "mania-record" => maniarec::main(rest),
         "taiko-replay" => taiko::replay_main(rest),
         "taiko-record" => taiko::record_main(rest),
